@@ -259,6 +259,10 @@ def run_case(case, ctx):
             from rv.core import close2 as _c2
 
             got = {k for k in got if not _c2(lib.have_value(R, tab[k]), 0, 0, 1e-12)} | (got & exp)
+            # ... and the other way round: a member whose derivations cancel down to 2**-66 may come out as exactly 0.0
+            # in floating point (thorough tier, seed 51: 1 of 3.7 M decisions); listing it is optional
+            optional = {x for x in exp if _c2(lib.want_value(R, want[x]), 0, 0, 1e-12)}
+            exp = exp - (optional - got)
         bad_keys = [k for k in tab if len(k) > n]
         good = got == exp and not bad_keys and all(
             lib.same(R, tab[x], want[x], exact=exact, tol=tol) for x in exp
